@@ -444,7 +444,7 @@ func obligationInProperty(o *Obligation, c *FuncContract, prop string) bool {
 	if len(o.Props) > 0 {
 		return hasProp(o.Props, prop)
 	}
-	lockKind := strings.HasPrefix(o.Kind, "guarded-") || o.Kind == "lock-not-held" || o.Kind == "unlock-held" || o.Kind == "wait-holds-lock" || o.Kind == "runlock-held" ||
+	lockKind := strings.HasPrefix(o.Kind, "guarded-") || o.Kind == "guarded-call" || o.Kind == "guarded-escape" || o.Kind == "lock-not-held" || o.Kind == "unlock-held" || o.Kind == "wait-holds-lock" || o.Kind == "runlock-held" ||
 		(o.Kind == "call-pre" && strings.Contains(o.Detail, "held("))
 	if prop == "C13" {
 		return lockKind && hasProp(c.Props, "C13")
